@@ -29,6 +29,8 @@ type c10Case struct {
 	From    int64   `json:"from"`
 	Until   int64   `json:"until"`
 	Header  bool    `json:"header"`
+	// ZeroLater: the second value of the files after the first is 0 (a hole in an earlier file followed by a stored 0)
+	ZeroLater bool `json:"zero_in_later_files,omitempty"`
 }
 
 func init() {
@@ -114,7 +116,11 @@ func c10World(root string, l wsp.Layout, k c10Case) (x [][]wsp.Ring, y [][]wsp.R
 	os.RemoveAll(root)
 	names := []string{"a.wsp", "b.wsp", "c.wsp"}
 	for f, code := range k.Codes {
-		r := contentByCode(l, k.Now, c10Choices(f, k.Base), code)
+		ch := c10Choices(f, k.Base)
+		if k.ZeroLater && f > 0 && len(ch) == 3 {
+			ch[2].V = 0
+		}
+		r := contentByCode(l, k.Now, ch, code)
 		(&BFile{L: l, Rings: r, Base: basePicks(code, len(l.Archs))}).Write(filepath.Join(root, "it", "x", names[f]))
 		x = append(x, r)
 	}
@@ -295,6 +301,9 @@ func runC10(c *fw.Ctx) {
 				}
 				one(c10Case{Layout: "L4", Now: now, Codes: codes, Base: base, Mode: "sum", Archive: arch, From: w[0], Until: w[1], Header: (idx+wi)%2 == 0})
 			}
+		}
+		if base == 3 && len(codes) == 2 && idx%3 == 0 {
+			one(c10Case{Layout: "L4", Now: now, Codes: codes, Base: base, Mode: "sum", Archive: -1, ZeroLater: true})
 		}
 		if idx%97 == 0 {
 			for _, m := range []string{"nomatch-item", "nomatch-file", "layout-mismatch", "one-file-pattern"} {
